@@ -94,4 +94,11 @@ class BookkeepingVisitor(ast.NodeVisitor):
                         self.containing_ast_by_id[id(subfield)] = node
                         if isinstance(node, ast.stmt):
                             self.parent_stmt_by_id[id(subfield)] = node
-        super().generic_visit(node)
+        # the statement containing a child is the one containing this node (or this node):
+        # a nested statement visited earlier must not leak into later siblings
+        # (decorators, return annotations, except-handler types, later match cases)
+        containing_stmt = self._current_containing_stmt
+        for child in ast.iter_child_nodes(node):
+            self._current_containing_stmt = containing_stmt
+            self.visit(child)
+        self._current_containing_stmt = containing_stmt
